@@ -244,6 +244,21 @@ func (x *Exec) applySpec(st *State, fs *FuncSpec, names []string, args []Val, si
 		return Val{}
 	}
 	st.prepareAlloc()
+	if fs.ModGhosts {
+		if !x.modAll && !x.spec.ModGhosts {
+			x.oblige(st, "frame", cc.label+":ghosts", "false", x.spec.Props, "callee "+cc.label+" may modify any ghost record", cc.pos)
+		}
+		for k := range st.heaps {
+			if strings.HasPrefix(k, "g:") {
+				st.havocHeap(k, func(Term) Term { return "false" })
+			}
+		}
+		for _, k := range []string{"g:Bool", "g:Int", "g:String", "g:Ref"} {
+			if _, ok := st.heaps[k]; !ok {
+				st.havocHeap(k, func(Term) Term { return "false" })
+			}
+		}
+	}
 	// frame: everything the callee may modify must be writable by the caller
 	if fs.ModAll {
 		if !x.modAll {
@@ -293,6 +308,15 @@ func (x *Exec) applySpec(st *State, fs *FuncSpec, names []string, args []Val, si
 			cur = "0"
 		}
 		st.ghostInt[key] = tIte(res.L[0], "(+ "+cur+" 1)", cur)
+	}
+	if n := sig.Results().Len(); n > 0 && isErrorType(sig.Results().At(n-1).Type()) {
+		lo, _ := tupleRange(sig.Results(), n-1)
+		key := "rerr:" + cc.label
+		cur, ok := st.ghostInt[key]
+		if !ok {
+			cur = "0"
+		}
+		st.ghostInt[key] = tIte(tNot(tEq(res.L[lo], "0")), "(+ "+cur+" 1)", cur)
 	}
 	bindResults(vars, sig, fs.Results, res)
 	env2 := &Env{x: x, st: st, old: pre, vars: vars}
@@ -639,7 +663,12 @@ func (x *Exec) chanKey(v ssa.Value) string {
 	case *ssa.ChangeType:
 		return x.chanKey(v.X)
 	case *ssa.Call:
-		// accessor methods such as c.MsgChan(): resolved through `ensures result == c.inMsgChan`
+		// accessor methods such as c.MsgChan(): declared with `returns-chan`
+		if f := v.Call.StaticCallee(); f != nil {
+			if fs := x.prog.spec.Funcs[x.prog.relName(f)]; fs != nil {
+				return fs.ReturnsChan
+			}
+		}
 		return ""
 	}
 	return ""
@@ -680,13 +709,20 @@ func (x *Exec) chanInvFor(st *State, chv ssa.Value, ch Val, v Val) Term {
 func (x *Exec) recv(st *State, in *ssa.UnOp, ch Val) {
 	et := in.X.Type().Underlying().(*types.Chan).Elem()
 	v := st.freshVal("rcv", et)
-	okT := Term("true")
-	if in.CommaOk {
-		okT = x.d.FreshConst("rcvok", "Bool")
-	}
+	// a receive yields a sent value (ok) or, on a closed channel, the zero value
+	okT := x.d.FreshConst("rcvok", "Bool")
 	st.assume(tImp(okT, x.chanInvFor(st, in.X, ch, v)))
 	x.d.DeclareFun("uf_neverclosed_0", []string{"Ref"}, "Bool")
 	st.assume(tImp("(uf_neverclosed_0 "+ch.L[0]+")", okT))
+	if !in.CommaOk {
+		z := zeroVal(et)
+		out := Val{T: in.Type()}
+		for i := range v.L {
+			out.L = append(out.L, tIte(okT, v.L[i], z.L[i]))
+		}
+		x.setReg(st, in, out)
+		return
+	}
 	if in.CommaOk {
 		z := zeroVal(et)
 		out := Val{T: in.Type()}
